@@ -21,6 +21,18 @@ from .types import NeedsContract, OutsideSubset
 PROVED, REFUTED, UNKNOWN, ERROR = "proved", "refuted", "unknown", "error"
 
 
+def _conjuncts(goal: z3.ExprRef, hyp: tuple = ()) -> list[tuple[tuple, z3.ExprRef]]:
+    """Split  h1 => (h2 => (a & b))  into [((h1,h2), a), ((h1,h2), b)]."""
+    if z3.is_implies(goal):
+        return _conjuncts(goal.arg(1), hyp + (goal.arg(0),))
+    if z3.is_and(goal):
+        out = []
+        for c in goal.children():
+            out.extend(_conjuncts(c, hyp))
+        return out
+    return [(hyp, goal)]
+
+
 def _chain(fns: list[Callable]) -> Callable:
     def dispatch(*a: Any, **kw: Any) -> Any:
         for f in fns:
@@ -56,7 +68,7 @@ class OblResult:
 
 
 class Verifier:
-    def __init__(self, repo: Repo, registry: Registry, spec_factory: Callable[[Exec], Any], timeout_ms: int = 20000):
+    def __init__(self, repo: Repo, registry: Registry, spec_factory: Callable[[Exec], Any], timeout_ms: int = 10000):
         self.repo = repo
         self.reg = registry
         self.spec_factory = spec_factory
@@ -144,7 +156,7 @@ class Verifier:
             env[a.vararg.arg] = v
         return env
 
-    def verify_function(self, key: str) -> tuple[list[OblResult], dict]:
+    def verify_function(self, key: str, extra_requires: list | None = None) -> tuple[list[OblResult], dict]:
         """Verify the function named by a contract key.  Returns obligation results and stats."""
         t0 = time.time()
         meta: dict[str, Any] = {"function": key, "paths": 0, "error": None}
@@ -171,6 +183,8 @@ class Verifier:
                 k.setup(ctx)
             for cl in k.requires:
                 st.assume(smt.lift(cl.fn(ctx)).z)
+            for fn in extra_requires or []:
+                st.assume(smt.lift(fn(ctx)).z)
             pre_pc = list(st.pc)
             frame = Frame(fi, fi.module, fi.cls, k)
             frame.ctx = ctx
@@ -217,6 +231,11 @@ class Verifier:
         def mk(label: str, goal: z3.BoolRef, kind: str, **info: Any) -> Obligation:
             return Obligation(label, list(st.pc), goal, r.node, fi.qualname, list(st.path), kind, info)
 
+        cells = None
+        if k.split is not None:
+            cells = [(n, smt.lift(cnd).z) for n, cnd in k.split(ctx)]
+            cells = [(n, cnd) for n, cnd in cells if ex.feasible(st, cnd)]
+
         if r.kind in ("return", "fall"):
             val = r.value if r.kind == "return" else smt.lift(None)
             td = ex.result_td(k, fi)
@@ -251,6 +270,12 @@ class Verifier:
                 out.append(mk(cl.label, smt.lift(cl.fn(ctx)).z, "exc-post", exc=r.exc))
         else:
             raise OutsideSubset(f"outcome {r.kind} at function end")
+        if cells is not None:
+            split_out: list[Obligation] = []
+            for o in out:
+                for n, cnd in cells:
+                    split_out.append(Obligation(f"{o.label}[{n}]", o.pc + [cnd], o.goal, o.node, o.func, o.path, o.kind, dict(o.info, cell=n)))
+            return split_out
         return out
 
     # ------------------------------------------------------------------
@@ -286,6 +311,27 @@ class Verifier:
         else:
             res.status = UNKNOWN
             res.reason = s.reason_unknown()
+            # diagnosis: which conjunct of the goal is the one that is not discharged
+            parts = _conjuncts(o.goal)
+            if len(parts) > 1:
+                failing = []
+                for idx, (hyp, cj) in enumerate(parts):
+                    s3 = z3.Solver()
+                    s3.set("auto_config", False)
+                    s3.set("smt.mbqi", False)
+                    s3.set("timeout", 3000)
+                    for a in ex.spec.axioms():
+                        s3.add(a)
+                    for a in smt.seq_axioms():
+                        s3.add(a)
+                    for f in o.pc:
+                        s3.add(f)
+                    for h in hyp:
+                        s3.add(h)
+                    s3.add(z3.Not(cj))
+                    if s3.check() != z3.unsat:
+                        failing.append(f"#{idx}: {str(cj)[:160]}")
+                res.info["failing_conjuncts"] = failing
             # second stage: the same query without quantified axioms often yields a concrete model
             s2 = z3.Solver()
             s2.set("timeout", min(self.timeout_ms, 5000))
